@@ -521,6 +521,11 @@ func cmdCheck(args []string) int {
 				continue
 			}
 			activeProp = pass
+			sel := pass // clause selection: the property itself, or the one named by "serves P as Q"
+			if pi == 0 && u.As[prop] != "" {
+				sel = u.As[prop]
+				activeProp = sel
+			}
 			res := VerifyUnit(prog, cs, u)
 			for ei, e := range res.Errors {
 				unbound = append(unbound, unboundT{fmt.Sprintf("%s/%s/bind:%d", prop, u.ID(), ei+1), e})
@@ -528,7 +533,7 @@ func cmdCheck(args []string) int {
 			n := 0
 			for _, ob := range res.Obligations {
 				if pi == 0 {
-					if len(ob.Tags) == 0 || hasTag(ob.Tags, prop) {
+					if len(ob.Tags) == 0 || hasTag(ob.Tags, sel) {
 						ob.Name = prop + "/" + ob.Name
 						obs = append(obs, ob)
 						n++
@@ -809,7 +814,11 @@ func cmdExpect(args []string) int {
 				continue
 			}
 			for p := range u.Tags {
-				if len(ob.Tags) == 0 || hasTag(ob.Tags, p) {
+				q := p
+				if u.As[p] != "" {
+					q = u.As[p]
+				}
+				if len(ob.Tags) == 0 || hasTag(ob.Tags, q) {
 					out[p] = append(out[p], p+"/"+ob.Name)
 				}
 			}
